@@ -125,6 +125,15 @@ impl TimeoutCounter {
     }
 }
 
+/// `Instant::now() + duration`, where a duration too large to be represented (e.g. `Duration::MAX`
+/// used as "no timeout") means a deadline far in the future instead of an overflow panic
+fn deadline_after(duration: Duration) -> Instant {
+    // the same fallback that tokio itself uses for `sleep` and `timeout`
+    const FAR_FUTURE: Duration = Duration::from_secs(86400 * 365 * 30);
+    let now = Instant::now();
+    now.checked_add(duration).unwrap_or(now + FAR_FUTURE)
+}
+
 pub(crate) struct ClientLoop {
     rx: crate::channel::Receiver<Command>,
     writer: FrameWriter,
@@ -282,7 +291,7 @@ impl ClientLoop {
             Err(_) => return Err(RequestError::Io(std::io::ErrorKind::TimedOut)),
         }
 
-        let deadline = Instant::now() + request.timeout;
+        let deadline = deadline_after(request.timeout);
 
         // loop until we get a response with the correct tx id or we timeout
         let response = loop {
@@ -362,7 +371,7 @@ impl ClientLoop {
         &mut self,
         duration: Duration,
     ) -> Result<(), StateChange> {
-        let deadline = Instant::now() + duration;
+        let deadline = deadline_after(duration);
         tokio::select! {
             _ = tokio::time::sleep_until(deadline) => {
                 // Timeout occurred
